@@ -78,7 +78,7 @@ class Proxy(object):
         self.flushes += 1
         if self.flaky_flush is not None and self.flushes == self.flaky_flush:
             # a non-blocking pipe whose reader has fallen behind: the line stays in the buffer
-            self.injected = BlockingIOError(11, "write could not complete without blocking")
+            self.injected = BlockingIOError(11, "write could not complete without blocking", 0)
             raise self.injected
         return self._real.flush()
 
